@@ -1,6 +1,9 @@
 """C04: a pre-terminal expands to exactly the product of its terminal groups.
 Implementation = PcfgGrammar.create_guesses of /repo (output function swapped
-for a collector), model = Expand.v."""
+for a collector), model = Expand.v.  Markov pre-terminals are additionally
+expanded on generated OMEN models with entries AT the maximum level (levels
+0..13, 20.., on the grammar's one Optimizer) and compared with the independent
+enumerator omen_gen.brute_levels and with Omen.v's generator (markov_exploration)."""
 import itertools
 import json
 
@@ -10,7 +13,9 @@ import rulesets
 
 ID = "C04"
 TRUSTED = ["str.upper() per character is supplied to the model as a table probed from the running interpreter",
-           "the Markov level's strings are supplied by a separate run of the real MarkovCracker (exactness of that generator is C10)",
+           "the Markov level's strings are supplied to Expand.v by a separate run of the real MarkovCracker (exactness of that generator is C10); "
+           "for the generated OMEN models with entries at the maximum level the reference is harness/omen_gen.brute_levels (independent "
+           "enumerator over the lines of the Omen files) and Omen.v's generator evaluated by coqc on the same files",
            "second tie (translator): harness/translate_expand.py (ast -> Gallina, fail closed; accepted subset and what it does not model in its docstring) and the meaning coq/theories/ExpandRt.v gives to Python subscripts, slices, `if limit:` and str methods; print_guess, MarkovCracker, int() and str.upper() of one character are parameters of the generated functions"]
 ASSUMES = ["pre-terminal well-formed (seg_ok): every C_n follows an A_n whose words have n characters, masks have n characters; no empty group"]
 
@@ -107,6 +112,220 @@ def group_prob_oracle(g, rs):
                             "replay": {"ruleset": rs}})
                 return vio
     return vio
+
+
+# ---------------------------------------------------------------- Markov pre-terminals against an independent enumeration
+# The reference for "the strings of its OMEN level" is omen_gen.brute_levels (plain extension of strings over the LINES of
+# the Omen files), never the MarkovCracker of the tree under test.
+
+def collect_any(g, pt, limit):
+    """collect(), but any exception of the implementation is a result (None), not a crash of the check"""
+    try:
+        return collect(g, pt, limit)
+    except Exception as e:
+        if type(e).__name__ == "ImplementationHangs":      # the driver's wall-clock budget, not a result
+            raise
+        return None
+
+
+def omen_levels_for(rng, buckets, top, nmax):
+    """the levels written to pcfg_omen_prob.txt: every level 0..top+3 (the levels around the maximum level are the ones that
+    need an entry of the last level of a table), the non-empty levels around 2*top (both tables at the last level), up to
+    three other non-empty higher ones and one empty level above everything"""
+    mx = max(buckets) if buckets else 0
+    Ts = list(range(0, top + 4))
+    high = [t for t in sorted(buckets) if t > top + 3]
+    pick = [t for t in high if 2 * top <= t <= 2 * top + 2]
+    rest = [t for t in high if t not in pick]
+    rng.shuffle(rest)
+    Ts += pick + rest[:3]
+    Ts.append(max(mx, top + 3) + 1 + rng.randint(0, 2))
+    return Ts[:nmax]
+
+
+def omen_ruleset(rng, om, Ts):
+    """a ruleset around the OMEN model: a small generated grammar with an 'M' base structure, one line per level in
+    pcfg_omen_prob.txt (probabilities descending, some equal so that several levels share a group in the file)"""
+    rs = rulesets.gen_ruleset(rng, with_markov=True, max_bases=2, max_len=2)
+    rs["omen"] = om
+    levels = list(Ts)
+    rng.shuffle(levels)
+    ps = rulesets.gen_probs(rng, len(levels), False)
+    for k in range(1, len(ps)):
+        if rng.random() < 0.25:
+            ps[k] = ps[k - 1]
+    rs["omen_prob"] = list(zip([str(l) for l in levels], ps))
+    return rs
+
+
+def want_of(buckets, levels):
+    from collections import Counter
+    want = Counter()
+    for lv in levels:
+        want.update(buckets.get(int(lv), Counter()))
+    return want
+
+
+def markov_oracle(buckets, levels, limit, res, replay):
+    """one call of create_guesses([('M', i)], limit) against the brute-force level sets.  limit None: the lines are exactly
+    the strings of the level(s), each once (multiset), i.e. nothing missing = the generator was exhausted; limit N: min(N,
+    total) lines, all of the level, none twice.  Always: returned count == lines written."""
+    from collections import Counter
+    rp = dict(replay, limit=limit)
+    if res is None:
+        return [{"sig": "C04:markov-raised", "what": "create_guesses raised on the Markov pre-terminal of level(s) %s (limit %r)"
+                 % (levels, limit), "replay": rp}]
+    vio = []
+    lines, n = res
+    if n != len(lines):
+        vio.append({"sig": "C04:count", "what": "Markov level(s) %s: reported %r guesses but wrote %d lines (limit %r)"
+                    % (levels, n, len(lines), limit), "replay": rp})
+    want = want_of(buckets, levels)
+    total = sum(want.values())
+    got = Counter(lines)
+    extra = got - want
+    if extra:
+        e = next(iter(extra))
+        vio.append({"sig": "C04:markov-level:extra",
+                    "what": "Markov level(s) %s (limit %r): wrote %r %d time(s) but %d derivation(s) of it have that level; %d lines, %d strings in the level"
+                            % (levels, limit, e, got[e], want[e], len(lines), total), "replay": rp})
+    if not limit:
+        miss = want - got
+        if miss:
+            vio.append({"sig": "C04:markov-level:missing",
+                        "what": "Markov level(s) %s: wrote %d lines, the level holds %d strings; %d missing, e.g. %r"
+                                % (levels, len(lines), total, sum(miss.values()), sorted(miss)[:3]), "replay": rp})
+    elif len(lines) != min(limit, total):
+        vio.append({"sig": "C04:markov-limit", "what": "Markov level(s) %s with limit %d: wrote %d lines, the level holds %d strings"
+                    % (levels, limit, len(lines), total), "replay": rp})
+    return vio
+
+
+def markov_exploration(ctx, sc, dist):
+    """Small OMEN models with initial n-grams / lengths AT the maximum level, every level 0..max+3 (and around 2*max) as a
+    Markov pre-terminal of a ruleset, expanded through create_guesses on the grammar's one shared Optimizer in random order.
+    Returns (violations, coq cases, evaluations, distinct non-trivial, samples)."""
+    import omen_gen
+    from collections import Counter
+    import consts.omen_gen as cg
+    top = cg.extract()["omen_max_level"]
+    if top != omen_gen.TOP_LEVEL:
+        raise RuntimeError("the maximum OMEN level of the source (%r) is not the one the generated models are built for" % top)
+    vio, cases, samples = [], [], []
+    evaluations, nontrivial = 0, 0
+    seen = set()
+    nmodels = ctx.scale(28, 260)
+    forced = [{"ip_mode": "top", "ln_mode": "top", "cp_mode": "zero"}, {"ip_mode": "top", "ln_mode": "low"},
+              {"ip_mode": "low", "ln_mode": "top"}, {"ip_mode": "all10", "ln_mode": "top"}, {"ip_mode": "top", "ln_mode": "all10"},
+              {"ip_mode": "top", "ln_mode": "top", "ngram": 4}]
+    for m in range(nmodels):
+        om = omen_gen.gen_top_model(ctx.rng, max_strings=ctx.scale(1200, 2500), force=forced[m] if m < len(forced) else None)
+        buckets = omen_gen.brute_levels(om)
+        Ts = omen_levels_for(ctx.rng, buckets, top, ctx.scale(20, 24))
+        rs = omen_ruleset(ctx.rng, om, Ts)
+        try:
+            g = impl_next.load_grammar(rs, sc, False, False, "Grammar")
+        except Exception as e:
+            vio.append({"sig": "C04:markov-load", "what": "a ruleset with OMEN levels %s does not load: %r" % (sorted(Ts), e),
+                        "replay": {"ruleset": rs, "markov": True}})
+            continue
+        dist["markov_models"] += 1
+        dist["markov_models_ip_at_max"] += om["modes"]["top_ip"] > 0
+        dist["markov_models_ln_at_max"] += om["modes"]["top_ln"] > 0
+        dist["markov_models_ngram_%d" % om["ngram"]] = dist.get("markov_models_ngram_%d" % om["ngram"], 0) + 1
+        order = list(range(len(g.grammar["M"])))
+        ctx.rng.shuffle(order)
+        if order:
+            order.append(ctx.rng.choice(order))          # one level twice on the same Optimizer
+        history, observed = [], []
+        for i in order:
+            pt = [("M", i)]
+            levels = list(g.grammar["M"][i]["values"])
+            want = want_of(buckets, levels)
+            total = sum(want.values())
+            limits = [None]
+            if total > 1 and ctx.rng.random() < 0.5:
+                limits.append(ctx.rng.choice([1, total - 1, total, total + 1, ctx.rng.randint(1, total)]))
+            if ctx.rng.random() < 0.3:
+                limits.reverse()
+            for l in limits:
+                res = collect_any(g, pt, l)
+                evaluations += 1
+                dist["markov_calls"] += 1
+                replay = {"ruleset": rs, "pt": pt, "skip_case": False, "markov": True, "history": list(history)}
+                v = markov_oracle(buckets, levels, l, res, replay)
+                if v and history:
+                    # shortest explanation first: does the call fail on a new grammar object (empty Optimizer) too?
+                    g2 = impl_next.load_grammar(rs, sc, False, False, "Grammar")
+                    if markov_oracle(buckets, levels, l, collect_any(g2, pt, l), replay):
+                        for x in v:
+                            x["replay"] = dict(x["replay"], history=[])
+                vio += v
+                history.append([i, l])
+                lv = [int(x) for x in levels]
+                via_top = bool(total) and min(lv) >= top
+                dist["markov_levels_at_or_above_max_nonempty"] += via_top
+                dist["markov_levels_nonempty"] += bool(total)
+                dist["markov_strings"] += 0 if res is None else len(res[0])
+                key = (omen_gen.model_key(om), tuple(lv), l)
+                if key not in seen:
+                    seen.add(key)
+                    nontrivial += bool(total > 1 or via_top)
+                if res is not None and len(lv) == 1:
+                    # (level, lines, the generator was run to exhaustion) in the order of the calls on the one Optimizer
+                    observed.append((lv[0], res[0], not l or len(res[0]) < l))
+                if len(samples) < 2 and via_top and res is not None and not l:
+                    samples.append({"markov_level": lv, "ngram": om["ngram"], "ip": om["ip"][:6], "ln": om["ln"], "lines": res[0][:6],
+                                    "strings_in_level": total})
+        cases.append({"om": om, "grammar": g.omen_grammar, "levels": observed})
+    return vio, cases, evaluations, nontrivial, samples
+
+
+OMEN_HEADER = ["From Coq Require Import List NArith ZArith.", "From Pcfg Require Import OmenSpec Omen OmenCorr.",
+               "From PcfgGen Require Import Consts_gen.", "Import ListNotations.", "Open Scope nat_scope."]
+
+
+def markov_shards(ctx, cases, dist):
+    """The same observations for Coq: Omen.v's generator (the one the C10 theorems are about) run on the LINES of the
+    model's files must emit, level after level on one cache, exactly what create_guesses wrote (lists compared exactly,
+    exhaustion included); the loaded tables are compared too (OmenCorr.check_case)."""
+    import omen_gen
+    coq_cap, model_cap = ctx.scale(120, 200), ctx.scale(700, 1200)
+    lits, weight = [], []
+    for c in cases:
+        ip, ln, cp = omen_gen.loaded_tables(c["grammar"])
+        lv, total = [], 0
+        for T, out, complete in c["levels"]:
+            if total >= model_cap:
+                dist["markov_coq_levels_skipped"] += 1
+                continue
+            if len(out) > coq_cap:
+                out, complete = out[:coq_cap], False
+                dist["markov_coq_levels_prefix_only"] += 1
+            total += len(out) + 5
+            lv.append("((%d)%%Z, %s, %s)" % (T, omen_gen.cstrs(out), common.cbool(complete)))
+            dist["markov_coq_levels"] += 1
+        lits.append("(mk_case %s\n %s\n %s\n %s\n false\n %s\n false\n %s)" % (
+            omen_gen.coq_model(c["om"]), ip, ln, cp,
+            ("[" + ";\n  ".join(lv) + "]") if lv else "(@nil (Z * list (list N) * bool))", omen_gen.centries([])))
+        weight.append(len(lits[-1]) + 40 * len(c["om"]["cp"]))
+    nsh = min(len(cases), ctx.scale(8, common.NCPU)) or 1
+    load, members = [0] * nsh, [[] for _ in range(nsh)]
+    for i in sorted(range(len(cases)), key=lambda i: -weight[i]):
+        k = load.index(min(load))
+        members[k].append(i)
+        load[k] += weight[i]
+    shards = []
+    for k in range(nsh):
+        if not members[k]:
+            continue
+        src = list(OMEN_HEADER)
+        src.append("Definition cases : list omen_case := [")
+        src.append(";\n".join(lits[i] for i in members[k]))
+        src.append("].")
+        src.append("Eval vm_compute in (ofailing check_case cases).")
+        shards.append(("m%04d" % k, "\n".join(src)))
+    return shards, members
 
 
 def slots_literal(g, pt):
@@ -229,8 +448,32 @@ def run(ctx):
                ";\n".join(cases), "].",
                "Eval vm_compute in (failing (check_pt up om) cases)."]
         shards.append(("r%04d" % r, "\n".join(src)))
+    # Markov pre-terminals of levels up to and above the maximum level, against an independent enumeration (after the
+    # loop above, so that the rulesets it draws are the ones it always drew)
+    from collections import Counter
+    mdist = Counter()
+    mvio, mcases, mev, mnt, msamples = markov_exploration(ctx, sc, mdist)
+    vio += mvio
+    samples += msamples
+    nontrivial += mnt
+    dist["calls"] += mev
+    mshards, mmembers = markov_shards(ctx, mcases, mdist)
+    dist.update(mdist)
+    shards += mshards
     corr = []
     for name, idx, log in common.run_case_shards("C04", shards):
+        if name[0] == "m":
+            if idx is None:
+                corr.append(("omen-level:" + name, False, log[-800:]))
+            elif idx:
+                k = int(name[1:])
+                c = mcases[mmembers[k][idx[0]]]
+                corr.append(("omen-level:" + name, False, "Omen.v's generator and create_guesses differ on the Markov pre-terminals (or the loaded "
+                             "tables) of models %s; first model: %s" % ([mmembers[k][j] for j in idx],
+                                                                       json.dumps({q: c["om"][q] for q in ("ngram", "ip", "cp", "ln")})[:600])))
+            else:
+                corr.append(("omen-level:" + name, True, ""))
+            continue
         if idx is None:
             corr.append(("expand:" + name, False, log[-800:]))
         elif idx:
@@ -241,7 +484,15 @@ def run(ctx):
             "'ß' whose upper() expands, adjacent alpha words, alpha at start/middle/end, Markov pre-terminals, a few malformed "
             "structures starting with C), create_guesses called with limit None, 1, total-1, total, total+1 and a random inner "
             "value; non-trivial = has an upper-casing mask, two alpha words, a Markov level or more than one guess; distinct by "
-            "the groups' values")
+            "the groups' values.  PLUS Markov pre-terminals against an independent enumerator: small OMEN models (ngram 2-4, 3-5 "
+            "symbols, 1-3 generated lengths, sparse/dense) whose initial n-grams and/or lengths sit partly or all AT the maximum "
+            "level (10) beside cheap ones, inside a generated ruleset whose pcfg_omen_prob.txt lists every level 0..13, the "
+            "non-empty levels 20..22, up to 3 other non-empty higher ones and an empty one (some sharing a probability); every "
+            "('M', i) expanded by create_guesses in random order on the grammar's ONE Optimizer (one level twice), unlimited and "
+            "for half of them with a limit (1, total-1, total, total+1, random); oracle = omen_gen.brute_levels on the lines of the "
+            "Omen files: multiset equality (nothing missing = exhaustion, nothing extra or twice), count == lines, limit N -> "
+            "min(N, total) lines of the level; Coq: Omen.v's generator on the same files emits the same lists (OmenCorr.check_case); "
+            "there non-trivial = more than one string or a non-empty level >= the maximum level, distinct by (tables, level, limit)")
     # second tie to the source (translator): name the broken equality if the build lost ExpandGenProofs
     import expand_tie
     corr.append(expand_tie.obligation())
@@ -257,6 +508,24 @@ def replay(ctx, data):
     if "ruleset" not in inp:
         return []
     sc = common.scratch()
+    if inp.get("markov"):
+        # a Markov pre-terminal against the brute-force enumeration of the model in the ruleset, after the recorded calls
+        # on the same grammar object (one shared Optimizer)
+        import omen_gen
+        try:
+            g = impl_next.load_grammar(inp["ruleset"], sc, False, False, "Grammar")
+        except Exception as e:
+            return [{"sig": "C04:markov-load", "what": "the ruleset does not load: %r" % (e,), "replay": inp}]
+        if "pt" not in inp:
+            return []
+        buckets = omen_gen.brute_levels(inp["ruleset"]["omen"])
+        for i, hl in inp.get("history") or []:
+            collect_any(g, [("M", i)], hl)
+        pt = [tuple(x) for x in inp["pt"]]
+        l = inp.get("limit")
+        levels = list(g.grammar["M"][pt[0][1]]["values"])
+        base = {k: v for k, v in inp.items() if k != "limit"}
+        return markov_oracle(buckets, levels, l, collect_any(g, pt, l), base)
     g = impl_next.load_grammar(inp["ruleset"], sc, False, inp.get("skip_case", False), "Grammar")
     if "pt" not in inp:
         return group_prob_oracle(g, inp["ruleset"])
